@@ -59,6 +59,10 @@ pub fn c01(ctx: &Ctx) -> Collector {
     run_space(&col, 19, &spaces::s_forced_dense(ctx.tier.thorough()), &p, true, &no_extra);
     run_histories(&col, 22, &p, ctx.tier.thorough());
     run_space(&col, 23, &spaces::s_antimask(ctx.tier.thorough()), &p, true, &no_extra);
+    run_space(&col, 24, &s_corpus(), &p, true, &no_extra);
+    if !ctx.tier.thorough() {
+        run_space(&col, 25, &s_forced_versions(false), &p, true, &no_extra);
+    }
     if ctx.tier.thorough() {
         // the complete (length x forced version) triangle of C05, judged here for this property
         run_space(&col, 21, &s_forced_versions(true), &p, true, &no_extra);
@@ -265,6 +269,7 @@ pub fn c05(ctx: &Ctx) -> Collector {
     run_space(&col, 5, &spaces::s_cross(ctx.tier.thorough()), &p, false, &no_extra);
     run_space(&col, 6, &spaces::s_order(ctx.tier.thorough()), &p, false, &no_extra);
     run_space(&col, 7, &s_len_utf8(ctx.tier.thorough()), &p, false, &no_extra);
+    run_space(&col, 8, &s_long_foreign(ctx.tier.thorough()), &p, false, &no_extra);
     if ctx.tier.thorough() {
         run_space(&col, 4, &spaces::s_len(Family::Hi, 7200), &p, false, &no_extra);
     }
@@ -293,6 +298,10 @@ pub fn c06(ctx: &Ctx) -> Collector {
     run_space(&col, 19, &spaces::s_forced_dense(ctx.tier.thorough()), &p, true, &no_extra);
     run_histories(&col, 22, &p, ctx.tier.thorough());
     run_space(&col, 23, &spaces::s_antimask(ctx.tier.thorough()), &p, true, &no_extra);
+    run_space(&col, 24, &s_corpus(), &p, true, &no_extra);
+    if !ctx.tier.thorough() {
+        run_space(&col, 25, &s_forced_versions(false), &p, true, &no_extra);
+    }
     if ctx.tier.thorough() {
         // the complete (length x forced version) triangle of C05, judged here for this property
         run_space(&col, 21, &s_forced_versions(true), &p, true, &no_extra);
@@ -457,6 +466,61 @@ pub fn s_mixed_auto(max_len: usize, thorough: bool) -> Space {
     Space { name: "S_mixed_auto".into(), describe: format!("two-run strings (digits|letters then letters|digits|lowercase) of every length 0..={} and every split point{}, clean and with one foreign byte (',' and 'a') at every position of the second run; automatic mode; version automatic and (every fourth) forced to the smallest sufficient version and the next one", max_len, if thorough { "" } else { " <= 20" }), cases, exhaustive: true }
 }
 
+/// S_corpus: what people actually put into QR codes, in upper and lower case, with digit-only, letter-only and
+/// mixed remainders, and with a byte-order mark / whitespace in front: scheme and record prefixes are where a
+/// "fast path" for a special kind of input goes wrong
+pub fn s_corpus() -> Space {
+    let prefixes: [&str; 28] = [
+        "http://", "https://", "HTTP://", "HTTPS://", "Http://", "www.", "WWW.", "mailto:", "MAILTO:", "tel:", "TEL:", "TEL:+", "sms:", "SMSTO:", "geo:", "GEO:", "WIFI:", "WIFI:T:WPA;S:", "BEGIN:VCARD", "BEGIN:VEVENT", "MATMSG:TO:", "MECARD:N:", "bitcoin:", "otpauth://totp/", "urn:", "URN:", "data:", "",
+    ];
+    let rests: [&str; 9] = ["", "0123456789", "31415926535897932384626433832795", "EXAMPLE.COM/A", "FAST-QR.COM/PATH/TO/PAGE 1", "example.com/a?b=c&d=e", "Example.Com", "A", "a"];
+    let fronts: [&[u8]; 5] = [b"", b"\xEF\xBB\xBF", b" ", b"\n", b"\xFF\xFE"];
+    let mut cases = vec![];
+    for f in fronts {
+        for p in prefixes {
+            for r in rests {
+                let mut v = f.to_vec();
+                v.extend_from_slice(p.as_bytes());
+                v.extend_from_slice(r.as_bytes());
+                cases.push(auto_case(v.clone()));
+                if f.is_empty() {
+                    let mut w = v.clone();
+                    w.push(b'\n');
+                    cases.push(auto_case(w));
+                    let mut w = v;
+                    w.extend_from_slice(b"\r\n");
+                    cases.push(auto_case(w));
+                }
+            }
+        }
+    }
+    Space { name: "S_corpus".into(), describe: "28 scheme / record prefixes in upper and lower case x 9 remainders (empty, digits, upper-case host and path, lower-case URL, single letters) x 5 fronts (none, UTF-8 byte-order mark, space, line feed, FF FE), and with LF / CRLF at the end; all options automatic".into(), cases, exhaustive: true }
+}
+
+/// S_long_foreign: one foreign byte at positions on a ladder (powers of two, capacity edges) of digit and letter
+/// strings that are as long as the largest symbols hold: a detection that looks at a bounded prefix, or in chunks,
+/// is wrong only far into a long input. Levels L, M and the default.
+pub fn s_long_foreign(thorough: bool) -> Space {
+    let mut cases = vec![];
+    let ladder: Vec<usize> = vec![0, 1, 7, 8, 63, 64, 255, 256, 1023, 1024, 2047, 2048, 2952, 2953, 4095, 4096, 4295, 4296, 4297, 4298, 5595, 5596, 7087, 7088];
+    for (m, foreign) in [(0usize, b'A'), (0, b'a'), (1, b'a'), (1, b'#')] {
+        for e in [Some(0u8), Some(1), None] {
+            let lens: Vec<usize> = if m == 0 { vec![2900, 4297, 4298, 5596, 7089] } else { vec![2900, 4296] };
+            for len in lens {
+                for &p in &ladder {
+                    if p >= len || (!thorough && foreign == b'#' && p % 2 == 1) {
+                        continue;
+                    }
+                    let mut s = spaces::content(Family::Ctr, m, len);
+                    s[p] = foreign;
+                    cases.push(Case::new(s, Opts { ecl: e, ..Opts::default() }));
+                }
+            }
+        }
+    }
+    Space { name: "S_long_foreign".into(), describe: "digit strings of 2900, 4297, 4298, 5596, 7089 characters and letter strings of 2900, 4296 with one foreign byte at 24 ladder positions (powers of two and capacity edges, up to the last character), levels L, M and default, automatic mode (most must be refused as too big for Byte mode, the 2900-character ones fit)".into(), cases, exhaustive: true }
+}
+
 fn c09_extra(case: &Case, _input: &[u8], out: &Outcome) -> Vec<Finding> {
     if case.opts.mode.is_none() {
         if let Outcome::Panic(msg) = out {
@@ -481,6 +545,8 @@ pub fn c09(ctx: &Ctx) -> Collector {
     run_space(&col, 5, &spaces::s_pair_ctx(ctx.tier.thorough()), &p, false, &c09_extra);
     run_space(&col, 6, &s_mixed_auto(if ctx.tier.thorough() { 64 } else { 48 }, ctx.tier.thorough()), &p, false, &c09_extra);
     run_space(&col, 7, &spaces::s_opt(ctx.tier.thorough()), &p, false, &c09_extra);
+    run_space(&col, 8, &s_corpus(), &p, false, &c09_extra);
+    run_space(&col, 9, &s_long_foreign(ctx.tier.thorough()), &p, false, &c09_extra);
     col
 }
 
@@ -510,6 +576,8 @@ pub fn c10(ctx: &Ctx) -> Collector {
     run_space(&col, 22, &s_long_auto(ctx.tier.thorough()), &p, false, &no_extra);
     run_space(&col, 23, &spaces::s_order(ctx.tier.thorough()), &p, false, &no_extra);
     run_space(&col, 25, &s_mixed_auto(if ctx.tier.thorough() { 64 } else { 48 }, ctx.tier.thorough()), &p, false, &no_extra);
+    run_space(&col, 28, &s_corpus(), &p, false, &no_extra);
+    run_space(&col, 29, &s_long_foreign(ctx.tier.thorough()), &p, false, &no_extra);
     run_space(&col, 24, &s_len_utf8(ctx.tier.thorough()), &p, false, &no_extra);
     run_space(&col, 26, &spaces::s_forced_dense(ctx.tier.thorough()), &p, false, &no_extra);
     run_space(&col, 27, &spaces::s_antimask(ctx.tier.thorough()), &p, false, &no_extra);
@@ -528,8 +596,110 @@ pub fn c15(ctx: &Ctx) -> Collector {
     run_space(&col, 1, &spaces::s_opt(ctx.tier.thorough()), &p, true, &no_extra);
     run_space(&col, 2, &spaces::s_small(&[None], false), &p, true, &no_extra);
     run_histories(&col, 4, &p, ctx.tier.thorough());
+    callback_view(&col, ctx.tier.thorough());
     if ctx.tier.thorough() {
         run_space(&col, 3, &spaces::s_len(Family::Ctr, 7200), &p, true, &no_extra);
     }
     col
+}
+
+thread_local! {
+    static CALLS: std::cell::RefCell<Vec<(usize, usize, u8)>> = std::cell::RefCell::new(Vec::new());
+}
+
+fn recording_shape(y: usize, x: usize, m: fast_qr::Module) -> String {
+    CALLS.with(|c| c.borrow_mut().push((y, x, m.0)));
+    format!("M{},{}h1v1h-1", x, y)
+}
+
+/// The label map as a custom shape callback sees it (the statement names this use): `Shape::Command` callbacks
+/// registered first, second and third among the layers of an SvgBuilder must be called exactly once per dark module,
+/// with that module's own coordinates (plus margin) and that module's own value and type.
+fn callback_view(col: &Collector, thorough: bool) {
+    use fast_qr::convert::svg::SvgBuilder;
+    use fast_qr::convert::{Builder, Shape};
+    let t0 = std::time::Instant::now();
+    let versions: Vec<usize> = if thorough { (1..=40).collect() } else { vec![1, 2, 7, 11, 12, 13, 20, 27, 28, 40] };
+    let mut tasks = vec![];
+    for &v in &versions {
+        for layout in 0..3usize {
+            for margin in [0usize, 3] {
+                tasks.push((v, layout, margin));
+            }
+        }
+    }
+    let n_calls = std::sync::atomic::AtomicU64::new(0);
+    crate::pool::par_for(tasks.len(), |i| {
+        let (v, layout, margin) = tasks[i];
+        let input = spaces::content(Family::Ctr, 2, r::cap(v, 1, 2));
+        let o = Opts { mode: Some(2), ecl: Some(1), version: Some(v as u8), mask: None, order: 0 };
+        let q = match crate::subject::build(&input, &o) {
+            Outcome::Ok(q) => q,
+            _ => {
+                col.skipped_panic();
+                return;
+            }
+        };
+        let n = q.size;
+        let res = crate::subject::guarded(|| {
+            CALLS.with(|c| c.borrow_mut().clear());
+            let mut b = SvgBuilder::default();
+            b.margin(margin);
+            match layout {
+                0 => {
+                    b.shape(Shape::Command(recording_shape));
+                }
+                1 => {
+                    b.shape(Shape::Square).shape(Shape::Command(recording_shape));
+                }
+                _ => {
+                    b.shape(Shape::Circle).shape_color(Shape::Diamond, [255, 0, 0, 255]).shape(Shape::Command(recording_shape));
+                }
+            }
+            let _ = b.to_str(&q);
+            CALLS.with(|c| c.borrow().clone())
+        });
+        let calls = match res {
+            Ok(c) => c,
+            Err(m) => {
+                col.violation((5, i as u64), "C15/callback-panic".into(), format!("v{} layout {}: rendering with a custom shape panicked: {}", v, layout, m), json_case(v, layout, margin));
+                return;
+            }
+        };
+        n_calls.fetch_add(calls.len() as u64, std::sync::atomic::Ordering::Relaxed);
+        col.eval(Some(crate::util::fnv(format!("{:?}{}", (v, layout, margin), calls.len()).as_bytes())));
+        let mut seen = vec![0u8; n * n];
+        let mut bad: Option<String> = None;
+        for &(y, x, raw) in &calls {
+            if y < margin || x < margin || y - margin >= n || x - margin >= n {
+                bad.get_or_insert(format!("callback called with (y {}, x {}) outside the symbol (margin {})", y, x, margin));
+                continue;
+            }
+            let (r0, c0) = (y - margin, x - margin);
+            let own = q.data[r0 * n + c0];
+            seen[r0 * n + c0] += 1;
+            if own.0 != raw {
+                let got = fast_qr::Module(raw);
+                bad.get_or_insert(format!("callback for module (row {}, col {}) received a module of type {:?} value {} but that module is {:?} value {}", r0, c0, got.module_type(), got.value(), own.module_type(), own.value()));
+            }
+        }
+        for r0 in 0..n {
+            for c0 in 0..n {
+                let want = if q.data[r0 * n + c0].value() { 1 } else { 0 };
+                if seen[r0 * n + c0] != want && bad.is_none() {
+                    bad = Some(format!("callback called {} time(s) for module (row {}, col {}) which is {}", seen[r0 * n + c0], r0, c0, if want == 1 { "dark" } else { "light" }));
+                }
+            }
+        }
+        if let Some(w) = bad {
+            col.violation((5, i as u64), "C15/callback-sees-wrong-module".into(), format!("v{} custom shape registered {} (margin {}): {}", v, ["alone", "second", "third"][layout], margin, w), json_case(v, layout, margin));
+        }
+    });
+    col.space(serde_json::json!({"name": "callback view", "cases": tasks.len(), "callback_calls": n_calls.load(std::sync::atomic::Ordering::Relaxed), "exhaustive": true,
+        "what": format!("versions {:?} x custom Shape::Command registered alone / second / third x margins {{0,3}}: one call per dark module with that module's coordinates, value and type", versions),
+        "wall_s": (t0.elapsed().as_secs_f64() * 100.0).round() / 100.0}));
+}
+
+fn json_case(v: usize, layout: usize, margin: usize) -> serde_json::Value {
+    serde_json::json!({"kind": "callback-view", "version": v, "layout": layout, "margin": margin})
 }
